@@ -48,8 +48,8 @@ def enabled(done, params):
     out = []
     if 'O' not in done and params['ostyle'] != 'absent':
         out.append('O')
-    if 'O' in done and 'C' not in done and params['ostyle'] == 'whole':
-        out.append('C')
+    if 'O' in done and 'C' not in done and params['ostyle'] != 'absent':
+        out.append('C')      # (also when the line came in two chunks: it has been printed, the listener is open)
     if 'C' in done and params['connect'] == 'ok':
         if 'B1' not in done:
             out.append('B1')
@@ -157,7 +157,8 @@ def run_launch(params, order):
                             pass          # ProcessProtocol errors are logged by the reactor
                     elif step == 'C':
                         if 'd' not in conn:
-                            viol.append(('no-connection-attempt', 'after-marker', 'the control-listener line was printed, no connection attempted'))
+                            viol.append(('no-connection-attempt', 'after-marker' if params['ostyle'] == 'whole' else 'marker-split-across-chunks',
+                                         'the control-listener line was printed (%r), no connection attempted' % (params['ostyle'],)))
                             break
                         if params['connect'] == 'ok':
                             proto = TorControlProtocol()
@@ -223,6 +224,9 @@ def run_launch(params, order):
                     viol.append(('step-raised', '%s/%s' % (step, type(e).__name__), '%r' % (e,)))
                     break
                 n = len(rec.fires)
+                if step == 'X' and n == 0:
+                    viol.append(('launch-pending-after-failure-condition', 'ended/right-after-exit',
+                                 'the process ended (%s) after %r and the launch result has not fired' % (params['exit'], log)))
                 if n > fired_before:
                     state['fired_at'] = step
                     if rec.kind == 'ok':
